@@ -456,3 +456,18 @@ def mate_hunt_positions(seed, n):
             continue
         out.append(board_to_fen(g, turn, None, None))
     return out
+
+
+def collision_pairs():
+    """committed pairs of different positions with equal keys on the pinned engine (corpus/collisions.txt)"""
+    out = []
+    p = os.path.join(VERIF, "corpus", "collisions.txt")
+    if not os.path.exists(p):
+        return out
+    for line in open(p):
+        line = line.strip()
+        if not line or line.startswith("#"):
+            continue
+        a, _, b = line.partition("|")
+        out.append((a.strip(), b.strip()))
+    return out
